@@ -1,4 +1,152 @@
 import Model.Base.Proto
+import Model.Series.Builder
+import Model.Series.Bootstrap
+import Model.Series.Date
+import Model.Spec.Series
 
-/-- stub: replaced when the property's driver is built -/
-def main : IO Unit := pure ()
+namespace Driver.C18
+open Proto Series
+
+/-- bytewise lexicographic `a ≤ b` (Go string comparison) -/
+def bytesLe : Bytes → Bytes → Bool
+  | [], _ => true
+  | _ :: _, [] => false
+  | a :: as, b :: bs => a < b || (a == b && bytesLe as bs)
+
+def env : Env := { norm := Date.normalize, le := bytesLe }
+def opts : Opts := { num := Bytes.ofString "num", den := Bytes.ofString "den" }
+
+def unhex (s : String) : Bytes := (Bytes.ofHex s).getD []
+
+def bits? (s : String) : Option Bits := F64.ofHex? s
+
+def bitsDots (s : String) : List Bits := if s == "-" || s == "" then [] else (s.splitOn ".").filterMap bits?
+
+/-- `tv+tv|bench|exp|ser|cmp|nh|dh|unit:bits,unit:bits` -/
+def parseResult (s : String) : List Ev :=
+  match s.splitOn "|" with
+  | [tv, bench, exp, ser, cmp, nh, dh, ms] =>
+    let table := if tv == "" then [] else (tv.splitOn "+").map unhex
+    (ms.splitOn ",").filterMap fun m =>
+      match m.splitOn ":" with
+      | [u, v] => (bits? v).map fun b =>
+        { unit := unhex u, table := table, bench := unhex bench, exp := unhex exp, ser := unhex ser,
+          cmp := unhex cmp, nh := unhex nh, dh := unhex dh, val := b }
+      | _ => none
+  | _ => []
+
+def parseResults (s : String) : List Ev :=
+  if s == "-" then [] else (s.splitOn "/").flatMap parseResult
+
+def hexList (l : List Bytes) : String := showHexList l
+
+def showBits (l : List Bits) : String :=
+  if l.isEmpty then "-" else ".".intercalate (l.map F64.toHex)
+
+def joinOr (l : List String) : String := if l.isEmpty then "-" else ",".intercalate l
+
+def showTable (t : TableOut) : String :=
+  let hp := t.hp.map fun (s, v) => match v with
+    | some (n, d) => s!"{s.toHex}={n.toHex}~{d.toHex}"
+    | none => s!"{s.toHex}=?"
+  let pts := t.points.map fun p =>
+    let den := match p.den with | some d => showBits d | none => "~"
+    s!"{p.bench.toHex}#{p.ser.toHex}#{p.date.toHex}#{showBits p.num}#{den}"
+  s!"{t.unit.toHex}|B:{hexList t.benches}|S:{hexList t.series}|H:{joinOr hp}|P:{joinOr pts}"
+
+def showSeries (r : Option (List TableOut)) : String :=
+  match r with
+  | none => "!err"
+  | some ts => if ts.isEmpty then "-" else ";".intercalate (ts.map showTable)
+
+def handleSeries (l : Line) : IO Unit := do
+  let pol := if l.getD "pol" == "1" then Policy.combine else Policy.replace
+  let evs := parseResults (l.getD "res" "-")
+  let b := build opts evs
+  if det env pol b then
+    IO.println s!"obs {l.id} det=1 dump={showSeries (allSeries env pol Iter.id b)}"
+  else
+    -- the harness lists one name per table (duplicates included), sorted
+    let names := ((tableKeys b).map uString).mergeSort bytesLe
+    IO.println s!"obs {l.id} det=0 tables={hexList names}"
+  let wf := Spec.Series.WF env opts pol evs
+  let kf := if wf then "" else " kf=N6"
+  IO.println s!"spec {l.id} inv=1 dump={showSeries (Spec.Series.specSeries env opts pol evs)}{kf}"
+
+/-! bootstrap -/
+
+def canon (b : Bits) : String := F64.toHex (F64.canonNaN b)
+
+def goSort (l : List Bits) : List Bits := Boot.sort Boot.f64 l
+
+def positive (b : Bits) : Bool := F64.lt 0 b && !F64.isInf b
+
+def minMax (l : List Bits) : Bits × Bits :=
+  match l with
+  | [] => (0, 0)
+  | a :: r => r.foldl (fun (lo, hi) x => (if F64.lt x lo then x else lo, if F64.lt hi x then x else hi)) (a, a)
+
+def handleBoot (l : Line) : IO Unit := do
+  let nu := goSort (bitsDots (l.getD "nu"))   -- AllComparisonSeries sorted the cells
+  let de := goSort (bitsDots (l.getD "de"))
+  let conf := (bits? (l.getD "conf")).getD 0
+  let n := (l.nat? "n").getD 0
+  let stream := if l.getD "stream" == "-" then [] else ((l.getD "stream").splitOn ",").filterMap String.toNat?
+  let s := Boot.ratio Boot.f64 nu de conf n stream
+  let seed := Boot.seed nu de
+  IO.println s!"obs {l.id} seed={F64.toHex seed} hn={F64.toHex (Boot.hash (bitsDots (l.getD "nu")))} l={canon s.low} c={canon s.center} h={canon s.high}"
+  -- the specification: low ≤ centre ≤ high; for positive samples all three within the attainable ratios
+  let pos := (nu ++ de).all positive
+  -- class of the recorded defect N3: N·p > (N-1)/2 with p = (1-confidence)/2, f = N·p as the code computes it
+  let p := F64.div (F64.sub F64.one conf) (F64.ofInt 2)
+  let f := F64.mul (F64.ofInt n) p
+  let (fn, fd) := F64.toFrac (F64.mant f) (F64.expo f)
+  let inClass := !F64.isNaN f && !F64.signBit f && 2 * fn > (n - 1) * fd
+  let mOrd := F64.le s.low s.center && F64.le s.center s.high
+  let (nl, nh) := minMax nu
+  let (dl, dh) := minMax de
+  let lo := F64.div nl dh
+  let hi := F64.div nh dl
+  let within (x : Bits) : Bool := F64.le lo x && F64.le x hi
+  let mIn := !pos || (within s.low && within s.center && within s.high)
+  let tags := (if inClass then ["N3"] else []) ++ (if !mIn || (!mOrd && !inClass) then ["N3R"] else [])
+  let kf := if tags.isEmpty then "" else " kf=" ++ "+".intercalate tags
+  IO.println s!"spec {l.id} ord=1 in={if pos then "1" else "na"}{kf}"
+
+def handlePct (l : Line) : IO Unit := do
+  let a := bitsDots (l.getD "a")
+  let p := (bits? (l.getD "p")).getD 0
+  let med := if a.isEmpty then "-" else F64.toHex (Boot.median Boot.f64 a)
+  IO.println s!"obs {l.id} r={canon (Boot.percentile Boot.f64 a p)} med={med}"
+
+/-! dates -/
+
+def handleDate (l : Line) : IO Unit := do
+  let s := (l.bytes? "in").getD []
+  match Date.normalize s with
+  | some o => IO.println s!"obs {l.id} out={o.toHex}"
+  | none => IO.println s!"obs {l.id} out=!err"
+
+def handlePair (l : Line) : IO Unit := do
+  let a := (l.bytes? "a").getD []
+  let b := (l.bytes? "b").getD []
+  match Spec.Series.instantOf a, Spec.Series.instantOf b with
+  | some x, some y =>
+    IO.println s!"spec {l.id} same={if x = y then 1 else 0} lt={if Spec.Series.instLt x y then 1 else 0}"
+  | _, _ => IO.println s!"spec {l.id} same=na lt=na"
+
+def handle (l : Line) : IO Unit := do
+  if l.kind != "case" then return
+  match l.getD "kind" with
+  | "series" => handleSeries l
+  | "boot" => handleBoot l
+  | "pct" => handlePct l
+  | "date" => handleDate l
+  | "dpair" => handlePair l
+  | _ => pure ()
+
+end Driver.C18
+
+def main : IO Unit := do
+  let stdin ← IO.getStdin
+  Proto.forEachLine stdin fun s => Driver.C18.handle (Proto.parseLine s)
